@@ -226,10 +226,12 @@ class Desugar(ast.NodeTransformer):
     def visit_Return(self, node):
         if node.value is None:
             return node
+        self.generic_visit(node)
         pre = self._hoist(node, "value")
         return pre + [node] if pre else node
 
     def visit_Assign(self, node):
+        self.generic_visit(node)
         pre = self._hoist(node, "value")
         # chained assignment with one attribute target:  obj.f = x = e   ->   obj.f = e ; x = obj.f
         # (e is evaluated once and both names are bound to the same object either way; obj.f is a data attribute)
@@ -259,6 +261,7 @@ class Desugar(ast.NodeTransformer):
         return pre + [node] if pre else node
 
     def visit_Expr(self, node):
+        self.generic_visit(node)
         pre = self._hoist(node, "value")
         return pre + [node] if pre else node
 
@@ -266,6 +269,17 @@ class Desugar(ast.NodeTransformer):
         # all(P(x) for x in (a, b, c))  ->  P(a) and P(b) and P(c)      any(...)  ->  ... or ...
         # (a comprehension over a literal tuple of plain names; evaluation order and short-circuiting are the same)
         self.generic_visit(node)
+        # getattr(o, "name")  ->  o.name          getattr(o, "name", d)  ->  (o.name if hasattr(o, "name") else d)
+        # (a literal attribute name on a plain variable: the same attribute read, written dynamically)
+        if isinstance(node.func, ast.Name) and node.func.id == "getattr" and len(node.args) in (2, 3) and not node.keywords \
+                and isinstance(node.args[0], ast.Name) and isinstance(node.args[1], ast.Constant) \
+                and isinstance(node.args[1].value, str) and node.args[1].value.isidentifier():
+            rd = ast.Attribute(value=copy.deepcopy(node.args[0]), attr=node.args[1].value, ctx=ast.Load())
+            if len(node.args) == 2:
+                return ast.fix_missing_locations(ast.copy_location(rd, node))
+            if _simple(node.args[2]) or isinstance(node.args[2], ast.Constant):
+                test = ast.Call(func=ast.Name(id="hasattr", ctx=ast.Load()), args=[copy.deepcopy(node.args[0]), node.args[1]], keywords=[])
+                return ast.fix_missing_locations(ast.copy_location(ast.IfExp(test=test, body=rd, orelse=node.args[2]), node))
         if isinstance(node.func, ast.Name) and node.func.id in ("all", "any") and len(node.args) == 1 and not node.keywords \
                 and isinstance(node.args[0], (ast.GeneratorExp, ast.ListComp)):
             ge = node.args[0]
